@@ -60,6 +60,7 @@ type Server struct {
 	Addr    string
 	Up      bool
 	Silent  bool // reads requests, never executes them
+	Flaky   bool // accepts connections and drops them when a request arrives
 	Conns   []*ServerConn
 	Aborted string // if non-empty: answers every request with this fatal exception class
 }
